@@ -18,6 +18,37 @@ T_MON = {"C07": ["M_CompactionPreservesReads", "M_CompactionDeletesLiveIndex", "
                  "M_Writable", "M_WriteCondition", "M_SuccessMeansWritten", "M_FailedOnlyIfDiffered", "M_CompactClampCommitted"]}
 
 
+B_MON = ["M_OnlyConfiguredRanges", "M_AllConfiguredRanges", "M_OnlyConfiguredRangesOddConfig", "M_AllConfiguredRangesOddConfig"]
+
+
+def ranges_part(work, binp, cov, quick):
+    """"Keys outside the configured compaction ranges are not touched": every prefix / skipped-prefix
+    configuration of Borders.tla (nested, repeated, sibling prefixes included) on a real backend."""
+    import fam_comp
+    consts = dict(MaxSkipped=2 if quick else 3, Pairing="cursor", GenHist=False)
+    r = tlc(work, "Borders.tla", fam_comp.simple_cfg(consts, ["OnlyConfiguredRanges", "AllConfiguredRanges"], view=False), timeout=900, name="mcborders")
+    if r["violated"] or not r.get("ok"):
+        raise Undecided("TLC on Borders.tla: %s %s" % (r["violated"], r["error"]))
+    cov["states"] += r["distinct"]; cov["transitions"] += r["states"]
+    cov["mc_runs"].append(dict(module="Borders.tla", config="main prefix, up to %d skipped prefixes out of a nested family + one sibling, repetitions allowed" % consts["MaxSkipped"],
+                               distinct_states=r["distinct"], states_generated=r["states"], invariants=["OnlyConfiguredRanges", "AllConfiguredRanges"]))
+    ro = tlc(work, "Borders.tla", fam_comp.simple_cfg(dict(consts, Pairing="sorted-pairs"), ["OnlyConfiguredRanges"], view=False), timeout=900, name="mcborders2")
+    cov["mc_runs"].append(dict(module="Borders.tla", config="same, borders sorted and paired two by two (the code before the repair of D22)", counterexample_found=bool(ro["violated"])))
+    g = tlc(work, "Borders.tla", fam_comp.simple_cfg(dict(consts, GenHist=True), ["Dump"], view=False), workers=1, timeout=900, name="genborders")
+    cfgs = parse_behaviours(g["outfile"])
+    if not cfgs:
+        raise Undecided("no compaction range configurations generated")
+    rep, trs, _ = fam_comp.run_driver(work, binp, "skiprun", cfgs, "memkv,badger,tikv", 8, name="skiprun")
+    cov["evaluations"] += rep.get("behaviours", 0); cov["distinct_nontrivial"] += rep.get("nontrivial", 0)
+    cov["replay"].append(dict(what="backend configured with a prefix and skipped prefixes, ten keys with two versions each, one compaction: which keys were touched",
+                              configurations=len(cfgs), runs=rep.get("behaviours", 0), engines="memkv,badger,tikv"))
+    log("skiprun: %d prefix / skipped-prefix configurations x 3 engines" % len(cfgs))
+    ntr, v = validate_all(work, trs, B_MON, module="TraceBorders.tla", chunks=4)
+    cov["traces_validated_against_impl"] += ntr
+    cov["monitors_ranges"] = B_MON
+    return v
+
+
 def check_compact(prop, tier, seed):
     t0 = time.time()
     work = Work(prop)
@@ -121,6 +152,8 @@ def check_compact(prop, tier, seed):
         cov["free_running"] = fr
         ntr, v = validate_all(work, alltraces, T_MON[prop], chunks=8)
         cov["traces_validated_against_impl"] = ntr
+        if not v:
+            v = ranges_part(work, binp, cov, quick)
         if v:
             violations += 1
             report_violation(prop, seed, v)
@@ -131,8 +164,7 @@ def check_compact(prop, tier, seed):
                        "revision; plus free-running runs of writers, a compactor and readers; non-trivial = at least two requests")
         cov["monitors"] = T_MON[prop]
         write_evidence(prop, tier, seed, cov,
-                       ["skipped-prefix configurations are covered by C07's border-pairing model only for the single default range in this revision",
-                        "faults are injected at the storage interface (Del / DelCurrent), the engines themselves are not made to fail"],
+                       ["faults are injected at the storage interface (Del / DelCurrent), the engines themselves are not made to fail"],
                        time.time() - t0, violations)
         return 1 if violations else 0
     finally:
